@@ -144,7 +144,7 @@ class Models:
         R(isinstance, self.m_isinstance)
         R(hasattr, self.m_hasattr)
         R(getattr, self.m_getattr)
-        R(setattr, self.m_setattr)
+        R(setattr, lambda I, a, k: self.m_setattr(I, a, k))
         R(bool, lambda I, a, k: VBool(I.truthy(a[0])) if a else VBool(False))
         R(str, self.m_str)
         R(repr, lambda I, a, k: VOpaque('repr'))
@@ -206,6 +206,14 @@ class Models:
             return VBool(any(issubclass(live, cl) for cl in classes))
         if isinstance(v, VExc):
             return VBool(any(issubclass(v.cls, cl) for cl in classes))
+        if isinstance(v, VDyn):
+            conds = []
+            for cl in classes:
+                if cl is str: conds.append(v.kind == 2)
+                elif cl in (int, bool): conds.append(v.kind == 1)
+                elif cl is type(None): conds.append(v.kind == 0)
+                else: raise OutOfSubset('isinstance of a dynamic value against %s' % cl.__name__)
+            return VBool(z3.Or(conds))
         kinds = self.py_kind(v)
         if kinds is None:
             r = self.isinstance_other(I, v, classes)
@@ -468,6 +476,15 @@ class Models:
         m = getattr(self, 'meth_%s_%s' % key, None)
         if m is None and isinstance(recv, (VStr, VBytes)):
             m = getattr(self, 'meth_str_' + name, None)
+            # a dynamically typed argument of a str method: its str view, TypeError otherwise
+            new = []
+            for x in args:
+                if isinstance(x, VDyn):
+                    if not I.ctx.branch(x.kind == 2):
+                        I.raise_py(TypeError)
+                    x = VStr(x.s)
+                new.append(x)
+            args = new
         if m is None:
             m = self.extra_methods.get(key)
         if m is None:
